@@ -1126,6 +1126,11 @@ class Interp(object):
                 k = mask_k(y)
                 if k is not None:
                     return Sym(term(x) % k[1])
+            for x, y in ((a, b), (b, a)):
+                # x & 2**k  ==  bit k of x, in place       [lean/PyInt.lean: and_pow2]
+                if isinstance(y, Sym) and y.pow2_of is not None:
+                    p = T.pow2(y.pow2_of)
+                    return Sym(((term(x) / p) % 2) * p)
             return Sym(T.band(ta, tb))
         if op == 'BitOr':
             for x, y in ((a, b), (b, a)):
@@ -1319,6 +1324,10 @@ class Interp(object):
             return o.bit_length
         if isinstance(o, ExcVal):
             return '<exc-attr>'
+        if isinstance(o, (Sym, int)) and not isinstance(o, bool):
+            if hasattr(0, name):
+                raise Unsupported('int attribute %s' % name)
+            raise RaiseSig('AttributeError')
         raise Unsupported('attribute %s of %r' % (name, o))
 
     def eval_class_attr(self, node, mod, cls, name):
